@@ -70,12 +70,24 @@ Proof. unfold send_msg. apply rv_send_frame. Qed.
 Lemma rv_send_msg_gen m s :
   rv (send_msg m s) = (v_sess (rv s), v_tmp (rv s), v_hd (rv s), v_map (rv s), v_lt (rv s), v_acks (rv s) ++ end_ack_of (FMsg m)).
 Proof. unfold send_msg. apply rv_send_frame_gen. Qed.
+Lemma rv_flush_fold (l : list (N * bytes)) : forall s0,
+  rv (fold_left (fun s (it : N * bytes) =>
+               emit (ESig SigSendFinished [PStrNum (fst it); PInt 0; PStr RES_TERMINATING])
+                    (s <| tx_map := dict_del (fst it) (tx_map s) |>)) l s0) = rv s0.
+Proof.
+  induction l as [|it l IH]; intros s0; cbn [fold_left]; [reflexivity|].
+  rewrite IH, rv_emit by reflexivity. reflexivity.
+Qed.
+
+Lemma rv_flush_pend_start s : rv (flush_pend_start s) = rv s.
+Proof. unfold flush_pend_start. rewrite rv_flush_fold. reflexivity. Qed.
+
 Lemma rv_do_close s : rv (do_close s) = rv s.
 Proof.
   unfold do_close. cbv zeta.
   match goal with |- context [if ?c then _ else _] => destruct c end; [reflexivity|].
-  rewrite rv_emit by reflexivity.
-  match goal with |- context [if ?c then _ else _] => destruct c end; reflexivity.
+  rewrite rv_emit by reflexivity. rv_norm.
+  match goal with |- context [if ?c then _ else _] => destruct c end; rv_norm; rewrite rv_flush_pend_start; reflexivity.
 Qed.
 Lemma rv_pq_trigger s : rv (pq_trigger s) = rv s.
 Proof. unfold pq_trigger. destruct (pq_set s); reflexivity. Qed.
@@ -120,18 +132,6 @@ Proof.
   destruct (sessinit_peer s) as [peer|]; [|reflexivity].
   destruct (negb (ascii (si_nodeid peer))); reflexivity.
 Qed.
-
-Lemma rv_flush_fold (l : list (N * bytes)) : forall s0,
-  rv (fold_left (fun s (it : N * bytes) =>
-               emit (ESig SigSendFinished [PStrNum (fst it); PInt 0; PStr RES_TERMINATING])
-                    (s <| tx_map := dict_del (fst it) (tx_map s) |>)) l s0) = rv s0.
-Proof.
-  induction l as [|it l IH]; intros s0; cbn [fold_left]; [reflexivity|].
-  rewrite IH, rv_emit by reflexivity. reflexivity.
-Qed.
-
-Lemma rv_flush_pend_start s : rv (flush_pend_start s) = rv s.
-Proof. unfold flush_pend_start. rewrite rv_flush_fold. reflexivity. Qed.
 
 Lemma rv_tx_proxy a s : rv (fst (tx_proxy a s)) = rv s.
 Proof.
